@@ -292,7 +292,7 @@ func RunC15(c *Ctx) {
 		runHistory(idx, true)
 		return
 	}
-	n := 12000
+	n := 9000
 	if c.Thorough() {
 		n = 120000
 	}
